@@ -20,7 +20,14 @@ class DT(str):
             return core.s_float(x)
         if self == "bool":
             return bool(x)
-        return core.s_int(x) if not isinstance(x, (SInt,)) else x
+        v = core.s_int(x) if not isinstance(x, (SInt,)) else x
+        if self.startswith("uint"):
+            # unsigned conversion wraps a negative value (numpy / numba semantics): uint64(-1) == 2**64 - 1
+            mod = 2 ** int(self[4:])
+            if isinstance(v, core.Sym):
+                return core.ite(v < 0, v + mod, v)
+            return v + mod if v < 0 else v
+        return v
 
     def __eq__(self, o):
         return str(self) == _dtype_name(o)
